@@ -54,6 +54,19 @@ Theorem C14_next_swap_delivers_pending : forall cfg steps,
 Proof. exact next_swap_delivers_pending. Qed.
 Print Assumptions C14_next_swap_delivers_pending.
 
+(* A delivered batch is not changed by anything that happens after its swap. In this functional
+   model a batch is a value, so the statement is immediate; what it stands for in the Go code
+   is that the accumulator started by initCh shares no slice backing array and no map with
+   the batch just handed out, and that no handler writes into a delivered map. That part is
+   tied by the correspondence and the oracle: the harness keeps every *ChangedObjects as
+   returned, fires the rest of the history, and re-reads all delivered batches at every later
+   swap and at the end (Corr_C14.wfinal; oracle C14/batch-mutated-after-delivery). *)
+Theorem C14_delivered_batches_stable : forall cfg steps more k b,
+  nth_error (w_batches (wrun cfg steps)) k = Some b ->
+  nth_error (w_batches (wrun cfg (steps ++ more))) k = Some b.
+Proof. exact delivered_batches_stable. Qed.
+Print Assumptions C14_delivered_batches_stable.
+
 (* ConfigMap data chain: Cur of the first batch is empty, Cur of batch k+1 is New of batch k
    if present, else Cur of batch k; the accumulator continues the chain *)
 Theorem C14_configmap_chain_first : forall cfg steps b,
